@@ -47,7 +47,7 @@ impl<R: Round> Context<R> {
 
         // adjust the signifcand so that the exponent is even
         let digits = x.digits() as isize;
-        let shift = self.precision as isize * 2 - (digits & 1) + (x.exponent & 1) - digits;
+        let shift = self.precision as isize * 2 - ((digits + x.exponent) & 1) - digits;
         let (signif, low, low_digits) = if shift > 0 {
             (shl_digits::<B>(&x.significand, shift as usize), IBig::ZERO, 0)
         } else {
